@@ -281,6 +281,10 @@ def run(chk):
         cases.append((p["stmts"], "\n".join(D.src_stmt(s) for s in p["stmts"]), "generated"))
     for sts in gen_exponent_stream(chk.rng, 60 if quick else 600):
         cases.append((sts, "\n".join(D.src_stmt(s) for s in sts), "exponent"))
+    for k in range(25 if quick else 300):      # structs (outside the model: implementation only)
+        for t in D.struct_templates(chk.rng, k):
+            if t["expect"] == "accept":
+                cases.append((None, t["source"], "struct"))
     for k in range(160 if quick else 2500):
         sts = gen_rebind(chk.rng, k)
         cases.append((sts, "\n".join(D.src_stmt(s) for s in sts), "rebind"))
